@@ -256,7 +256,7 @@ func runEvmTx(r *hx.R, n int, w *hx.W, _ []string) error {
 					case 5:
 						sp.to, sp.gasLimit, sp.kind = &reverter, 100_000, "revert"
 					case 6:
-						sp.to, sp.gasLimit, sp.data = &logger, 200_000, []byte{byte(r.Pick(4)), 0}
+						sp.to, sp.gasLimit, sp.data = &logger, 200_000, []byte{byte(r.Pick(4)), 0, byte(r.Pick(2)), byte(r.Pick(3))}
 					case 7:
 						sp.to, sp.gasLimit, sp.data, sp.kind = nil, 300_000, easm.Deployer(loggerRuntime()), "create"
 					case 8:
